@@ -4,14 +4,15 @@ C17 — schema trees map to the right leaf columns and def/rep levels.
 Property statements only; helper lemmas are in Carquet/Proofs/Schema.lean.
 `WellFormed root`: the root is a group with at least one child and every inner group has at
 least one child (what the Parquet format requires of a schema; an empty group would be stored
-with `num_children = 0` and is indistinguishable from a leaf).
+with `num_children = 0` and is indistinguishable from a leaf), groups carry no physical type
+and leaves carry one (the reader refuses anything else since fix 153ae4b).
 -/
 namespace Carquet.Properties.C17
 open Carquet Carquet.Spec.Schema Carquet.Impl.Schema Carquet.Proofs.Schema
 
 def wellFormedB : Node → Bool
   | .leaf _ => false
-  | .group i cs => groupsNonEmpty (.group i cs)
+  | .group i cs => groupsNonEmpty (.group i cs) && typed (.group i cs)
 
 def WellFormed (root : Node) : Prop := wellFormedB root = true
 
@@ -26,15 +27,19 @@ theorem C17_traverse_eq_spec : ∀ root : Node, WellFormed root →
   intro root h
   cases root with
   | leaf _ => exact absurd h (by simp [WellFormed, wellFormedB])
-  | group i cs => exact build_flatten i cs h
+  | group i cs =>
+    have h' : groupsNonEmpty (.group i cs) = true ∧ typed (.group i cs) = true := by
+      simpa [WellFormed, wellFormedB] using h
+    exact build_flatten i cs h'.1 h'.2
 
 def exInfo (n : String) (r : Option Rep) : Info := ⟨n, r, some 1, 0, none⟩
+def exGroup (n : String) (r : Option Rep) : Info := ⟨n, r, none, 0, none⟩
 /-- the example of the comment in file_reader.c -/
 def exTree : Node :=
-  .group (exInfo "schema" none) [
+  .group (exGroup "schema" none) [
     .leaf (exInfo "a" (some .optional)),
-    .group (exInfo "b" (some .optional)) [.leaf (exInfo "c" (some .required)), .leaf (exInfo "d" (some .optional))],
-    .group (exInfo "e" (some .repeated)) [.leaf (exInfo "f" (some .required)), .leaf (exInfo "g" (some .optional))]]
+    .group (exGroup "b" (some .optional)) [.leaf (exInfo "c" (some .required)), .leaf (exInfo "d" (some .optional))],
+    .group (exGroup "e" (some .repeated)) [.leaf (exInfo "f" (some .required)), .leaf (exInfo "g" (some .optional))]]
 example : WellFormed exTree := by decide
 example : Impl.Schema.build (flatten exTree) = some [⟨1, 1, 0⟩, ⟨3, 1, 0⟩, ⟨4, 2, 0⟩, ⟨6, 1, 1⟩, ⟨7, 2, 1⟩] := by
   rw [C17_traverse_eq_spec exTree (by decide)]; decide
@@ -45,7 +50,10 @@ theorem C17_column_count : ∀ root : Node, WellFormed root →
   intro root h
   cases root with
   | leaf _ => exact absurd h (by simp [WellFormed, wellFormedB])
-  | group i cs => exact countLeaves_root i cs h
+  | group i cs =>
+    have h' : groupsNonEmpty (.group i cs) = true ∧ typed (.group i cs) = true := by
+      simpa [WellFormed, wellFormedB] using h
+    exact countLeaves_root i cs h'.1
 example : countLeaves (flatten exTree) = 5 := by decide
 
 /-- Column k points at the schema element of the k-th leaf of the tree: name, type,
